@@ -1,30 +1,39 @@
 (** T2(c): the tie between the documented semantics of a program and the code's reading, on the
     simplest fragment (a single CrossBlock of plain factors; constraints among MinimumTrials,
-    AtMostKInARow / AtLeastKInARow / ExactlyKInARow / ExactlyK, Exclude, Pin).
+    AtMostKInARow / AtLeastKInARow / ExactlyKInARow / ExactlyK on a level or a whole factor, Exclude, Pin):
 
-    Full statement (decided per program by extract/drv_t2.ml through harness/t2_corr.py, where
-    [create_flat (plain_input p)] is also compared with the flat record of the real block):
+      plain_input p = Some ci -> t2_guard p = true -> create_flat ci = FOk fb -> doc_sem p = Ok ds ->
+      sem_eqv (code_sem fb) (ds_sem ds)            and hence equal [valid_b].
 
-      forall p ci fb ds,
-        plain_input p = Some ci -> create_flat ci = FOk fb -> doc_sem p = Ok ds ->
-        (* not: complete crossing required and a level of a crossed factor excluded - there the
-           documentation makes the design unsatisfiable while the code shrinks the crossing *)
-        sem_eqv (code_sem fb) (ds_sem ds)
-
-    Proved here: [sem_eqv] implies equal valid sequences, so the per-program decision of [sem_eqv]
-    is a decision of "same valid sequences"; and the instance of the full statement for a concrete
-    program.  The general proof of [sem_eqv] needs the closed forms of [create_flat] on plain
-    inputs (trial count = max(min_trials, size), weights loop = ceil_div, st_sizes = sum of the
-    feasible weights: Design/DocSemPlain.v [feasible_plain] is the doc_sem side of the latter) and
-    [map_block_trial_ranges (T, 0, keys)] = [(0, T)]. *)
+    [plain_input] (Front/PlainInput.v) is the function "flatten" on the fragment: the [create_input]
+    the constructor hands to [_create], with the exclusion count of the crossing; harness/t2_corr.py
+    compares [create_flat (plain_input p)] with the flat record of the real block on every generated
+    program of the fragment.  [t2_guard] (Front/PlainT2Final.v, boolean): design and crossing list every
+    factor once, the crossing is not empty, every design factor has a level and distinct level names,
+    and not (complete crossing required and a level of a crossed factor excluded - there the
+    documentation makes the design unsatisfiable while the code shrinks the crossing).
+    [create_flat ci = FOk fb] excludes weighted factors outside the crossing (weight desugaring is
+    not composed into [create_flat]) and a crossing all of whose combinations are excluded. *)
 From Coq Require Import ZArith List Bool Arith String.
-From SP Require Import Design.Sem Design.Flat Design.DocSem Design.SemEqv Front.Trials Front.CreateFlat Front.PlainInput Encode.CodeSem.
+From SP Require Import Design.Sem Design.Flat Design.DocSem Design.SemEqv Front.Trials Front.CreateFlat Front.PlainInput Front.PlainT2Final Encode.CodeSem.
 Import ListNotations.
 Local Open Scope nat_scope.
 
-Theorem T2c_sem_eqv_valid_partial : forall S1 S2, sem_eqv S1 S2 -> forall s, valid_b S1 s = valid_b S2 s.
+Theorem T2c_sem_eqv_valid : forall S1 S2, sem_eqv S1 S2 -> forall s, valid_b S1 s = valid_b S2 s.
 Proof. exact sem_eqv_valid. Qed.
-Print Assumptions T2c_sem_eqv_valid_partial.
+Print Assumptions T2c_sem_eqv_valid.
+
+Theorem T2c_plain_sem_eqv : forall p ci fb ds,
+  plain_input p = Some ci -> t2_guard p = true -> create_flat ci = FOk fb -> doc_sem p = Ok ds ->
+  sem_eqv (code_sem fb) (ds_sem ds).
+Proof. exact plain_t2. Qed.
+Print Assumptions T2c_plain_sem_eqv.
+
+Theorem T2c_plain_valid : forall p ci fb ds,
+  plain_input p = Some ci -> t2_guard p = true -> create_flat ci = FOk fb -> doc_sem p = Ok ds ->
+  forall s, valid_b (code_sem fb) s = valid_b (ds_sem ds) s.
+Proof. exact plain_t2_valid. Qed.
+Print Assumptions T2c_plain_valid.
 
 (** an instance: weighted crossed factor, an excluded crossed level (complete crossing not required),
     AtMostKInARow on a whole factor, Pin, MinimumTrials *)
@@ -35,6 +44,9 @@ Definition ex_plain :=
   {| p_factors := [ex_a; ex_b];
      p_main := PCross [0; 1] [1; 0]
                       [PExclude 1 "w"; PKRow DocSem.RAtMost 2 (TFactor 0); PPin (-1) 1 "u"; PMinimumTrials 7] false |}.
+
+Example ex_plain_guard : t2_guard ex_plain = true.
+Proof. vm_compute. reflexivity. Qed.
 
 Example ex_plain_t2 :
   exists ci fb ds, plain_input ex_plain = Some ci /\ create_flat ci = FOk fb /\ doc_sem ex_plain = Ok ds /\
